@@ -1085,9 +1085,61 @@ impl Visitor<Diagnostic> for LibraryRenderer {
         self.write_ws(":");
         self.visit_id(&node.type_name)?;
 
+        if !node.fb_tasks.is_empty() || !node.sources.is_empty() || !node.sinks.is_empty() {
+            self.write_ws("(");
+            let mut first = true;
+            for fb_task in node.fb_tasks.iter() {
+                if !first {
+                    self.write_ws(",");
+                }
+                first = false;
+                self.visit_id(&fb_task.fb_name)?;
+                self.write_ws("WITH");
+                self.visit_id(&fb_task.task_name)?;
+            }
+            for source in node.sources.iter() {
+                if !first {
+                    self.write_ws(",");
+                }
+                first = false;
+                self.visit_symbolic_variable_kind(&source.dst)?;
+                self.write_ws(":=");
+                self.visit_program_connection_source_kind(&source.src)?;
+            }
+            for sink in node.sinks.iter() {
+                if !first {
+                    self.write_ws(",");
+                }
+                first = false;
+                self.visit_symbolic_variable_kind(&sink.src)?;
+                self.write_ws("=>");
+                self.visit_program_connection_sink_kind(&sink.dst)?;
+            }
+            self.write_ws(")");
+        }
+
         self.write_ws(";");
         self.newline();
 
+        Ok(())
+    }
+
+    // 2.7.2
+    fn visit_global_var_reference(
+        &mut self,
+        node: &dsl::configuration::GlobalVarReference,
+    ) -> Result<Self::Value, Diagnostic> {
+        if let Some(resource_name) = &node.resource_name {
+            self.visit_id(resource_name)?;
+            self.write(".");
+            self.write(node.global_var_name.original().as_str());
+        } else {
+            self.visit_id(&node.global_var_name)?;
+        }
+        if let Some(element) = &node.structure_element_name {
+            self.write(".");
+            self.write(element.original().as_str());
+        }
         Ok(())
     }
 
